@@ -16,14 +16,36 @@ use fbh::classfile::facts::*;
 use fbh::classfile::facts_duke::{class_access, field_access, inner_class_flags, method_access, parameter_flags};
 use java_string::JavaStr;
 
-pub struct Tbl { map: HashMap<Vec<u8>, usize>, pub list: Vec<Vec<u8>> }
+/// what a table entry is: a string (with its characters when one of them is outside 1..127), or bytes that are not a
+/// string (attribute content)
+#[derive(Clone, Debug, PartialEq)]
+pub enum Kind { Ascii, Chars(Vec<u32>), Raw }
+pub struct Tbl { map: HashMap<(bool, Vec<u8>), usize>, pub list: Vec<Vec<u8>>, pub kinds: Vec<Kind> }
 impl Tbl {
-	pub fn new() -> Tbl { Tbl { map: HashMap::new(), list: vec![] } }
-	pub fn b(&mut self, b: &[u8]) -> String {
-		let k = match self.map.get(b) { Some(k) => *k, None => { let k = self.list.len(); self.list.push(b.to_vec()); self.map.insert(b.to_vec(), k); k } };
+	pub fn new() -> Tbl { Tbl { map: HashMap::new(), list: vec![], kinds: vec![] } }
+	fn put(&mut self, b: &[u8], kind: Kind) -> String {
+		let key = (kind == Kind::Raw, b.to_vec());
+		let k = match self.map.get(&key) { Some(k) => *k, None => { let k = self.list.len(); self.list.push(b.to_vec()); self.kinds.push(kind); self.map.insert(key, k); k } };
 		format!("(s {k})")
 	}
-	pub fn j(&mut self, s: &JStr) -> String { let b = s.to_mutf8(); self.b(&b) }
+	/// bytes that are not a string
+	pub fn b(&mut self, b: &[u8]) -> String { self.put(b, Kind::Raw) }
+	/// a string: its modified UTF-8 bytes from the harness' own encoder; the model checks them against JVMS 4.4.7
+	pub fn j(&mut self, s: &JStr) -> String {
+		let b = s.to_mutf8();
+		let cps = s.code_points();
+		let kind = if cps.iter().all(|c| (1..128).contains(c)) { Kind::Ascii } else { Kind::Chars(cps) };
+		self.put(&b, kind)
+	}
+	/// the `uni` argument of a CClass case
+	pub fn uni(kinds: &[Kind]) -> String {
+		let v: Vec<String> = kinds.iter().enumerate().filter_map(|(k, kind)| match kind {
+			Kind::Ascii => None,
+			Kind::Raw => Some(format!("({k}, None)")),
+			Kind::Chars(c) => Some(format!("({k}, Some [{}])", c.iter().map(|x| x.to_string()).collect::<Vec<_>>().join(";"))),
+		}).collect();
+		format!("[{}]", v.join(";"))
+	}
 	pub fn js(&mut self, s: &JavaStr) -> String { self.j(&JStr::from_java(s)) }
 }
 
@@ -148,7 +170,7 @@ fn insn(t: &mut Tbl, i: &Instruction, plain: &[u8]) -> Result<String, String> {
 		I::GetStatic(r) | I::PutStatic(r) | I::GetField(r) | I::PutField(r) => { let k = fref(t, r); cp(format!("(KField {k})")) }
 		I::InvokeVirtual(r) => { let k = mref(t, r); cp(format!("(KMethod {k})")) }
 		I::InvokeSpecial(r, itf) | I::InvokeStatic(r, itf) => { let k = mref(t, r); cp(format!("({} {k})", if *itf { "KIMethod" } else { "KMethod" })) }
-		I::InvokeInterface(r) => { let k = mref(t, r); cp(format!("(KIMethod {k})")) }
+		I::InvokeInterface(r) => { let k = mref(t, r); Ok(format!("(IIface {k})")) }
 		I::InvokeDynamic(InvokeDynamic { name, descriptor, handle: h, arguments }) => {
 			let (n, d, hh) = (t.js(name.as_inner()), t.js(descriptor.as_inner()), handle(t, h));
 			let a = list(arguments.iter().map(|x| loadable(t, x)).collect());
@@ -238,7 +260,7 @@ fn module(t: &mut Tbl, m: &ModuleFacts) -> String {
 }
 
 /// the tree as `fun s => Build_cclass …` and the string table; `plain[mi]` = probe bytes of method mi
-pub fn class_term(c: &ClassFile, plain: &[Option<Vec<Vec<u8>>>]) -> Result<(String, Vec<Vec<u8>>), String> {
+pub fn class_term(c: &ClassFile, plain: &[Option<Vec<Vec<u8>>>]) -> Result<(String, Vec<Vec<u8>>, String), String> {
 	let tf = facts_from_duke(c);
 	let mut t = Tbl::new();
 	let t = &mut t;
@@ -275,5 +297,6 @@ pub fn class_term(c: &ClassFile, plain: &[Option<Vec<Vec<u8>>>]) -> Result<(Stri
 	let term = format!("(fun s => Build_cclass {}%Z {}%Z {}%Z {name} {sup} {ifs} {fields} {} {} {} {inner} {encl} {sg} {sf} {sd} {an} {md} {mp} {mm} {nh} {nm} {ps} {} {})",
 		tf.version.minor, tf.version.major, class_access(&c.access), list(ms), c.has_deprecated_attribute, c.has_synthetic_attribute, list(rec), unknown(t, &c.attributes));
 	let strings = std::mem::take(&mut t.list);
-	Ok((term, strings))
+	let uni = Tbl::uni(&t.kinds);
+	Ok((term, strings, uni))
 }
